@@ -37,7 +37,23 @@ def dsa_getattr(vm, obj, attr):
     st = vm.state
     if isinstance(obj, SRef) and obj.t.eq(st['tp'].t) and attr == '_decode':
         return OpaqueFn(obj, '_decode')
+    if isinstance(obj, SRef) and obj.t.eq(st['tp'].t) and attr == '_DEFAULT':
+        return SInt(vm.fresh('default_value'))
     return NotImplemented
+
+
+def dsa_list_repeat(vm, seq, n):
+    """`[v] * n`: n elements are allocated at once.  C06: decode never allocates out of proportion to its input, so the
+    bytes such a list stands for must be there (each element takes `size` bytes of input)"""
+    st = vm.state
+    if len(seq) != 1:
+        return NotImplemented
+    cnt = vm.as_int(n)
+    c = z3.If(cnt < 0, 0, cnt)
+    vm.oblige('allocation bounded by the input: an array allocated up front is covered by the remaining bytes',
+              c * st['size'] <= z3.If(z3.Length(st['data'].t) - st['pos'] < 0, 0, z3.Length(st['data'].t) - st['pos']), 'post', vm.cur_line)
+    v = seq[0]
+    return SSeq(c, lambda i: v, 'preallocated')
 
 
 def dsa_call(vm, fn, args, kwargs, node):
@@ -96,7 +112,7 @@ def dsa_post(vm, st, result):
 
 
 Contract(CONTAINER, 'decode_scalar_array', ['C02', 'C06'], dsa_setup, dsa_post, shapes=RT, raises=only_prophy_error, modifies=[],
-         hooks={'getattr': dsa_getattr, 'call': dsa_call},
+         hooks={'getattr': dsa_getattr, 'call': dsa_call, 'list_repeat': dsa_list_repeat},
          loops={0: LoopAnn(dsa_inv, index='k', extra_havoc=['values'], locals_={'values': fresh_seq})},
          notes=['element decoder by contract (numeric_decorator.decode): returns (value, size) only if size bytes are available'])
 
